@@ -148,6 +148,38 @@ async def check_tree(ctx, case):
     compare(ctx, f"validate_segment_level({node['d']}, soll_is_required={soll}) under {asg}", TB.summarise(sout[1]), sub_expected, case)
 
 
+async def check_sequence(ctx, case):
+    """case: {"spec", "asgs": [...], "soll", "schedule_seed"}: the same AHB validated for several messages in a row from one coroutine"""
+    import random
+
+    spec, asgs, soll = case["spec"], case["asgs"], case["soll"]
+    ctx.set_case("sequence", case)
+    ctx.count("sequences")
+    worlds = [E.World(f"c13-{i}", rc=asg, fc={k: True for k in POOLS.fc}) for i, asg in enumerate(asgs)]
+    sc = sched.Sched(sched.RandomChooser(random.Random(case["schedule_seed"])))
+    out = await TB.validate_sequence(spec, worlds, soll, scheduler=sc)
+    if out[0] != "ok":
+        ctx.violation(f"validation-raises-{type(out[1]).__name__}", f"a sequence of {len(asgs)} validations {describe(out)[:300]}")
+        return
+    for i, (asg, res) in enumerate(zip(asgs, out[1])):
+        ctx.evaluation()
+        ctx.count("sequence_runs")
+        what = f"validation #{i + 1} of {len(asgs)} awaited from one coroutine (soll_is_required={soll}) under {asg}"
+        try:
+            expected = RV.ref_validate(spec, asg, soll)
+        except RV.ExpectNotImplemented:
+            if res[0] == "ok" or not isinstance(res[1], NotImplementedError):
+                ctx.violation("unknown-outcome-not-refused", f"{what}: expected NotImplementedError, got {describe(res)[:200]}")
+                return
+            continue
+        if res[0] != "ok":
+            ctx.violation("spurious-not-implemented" if isinstance(res[1], NotImplementedError) else f"validation-raises-{type(res[1]).__name__}", f"{what} {describe(res)[:300]}")
+            return
+        if not compare(ctx, what, TB.summarise(res[1]), expected, case):
+            return
+    ctx.nontrivial(["sequence", spec, [sorted(a.items()) for a in asgs], soll])
+
+
 def gen_case(ctx, rng, p_invalid=0.0):
     gen = T.TreeGen(rng, parts_factory(rng, p_invalid=p_invalid), max_depth=2 if ctx.quick else rng.choice([2, 3, 4]), max_branch=3 if ctx.quick else rng.choice([3, 4, 5]))
     spec = gen.tree()
@@ -164,6 +196,15 @@ async def run(ctx):
             ctx.sample({"tree": [(n["k"], n["d"], T.expr_string(n["x"]) if "x" in n else [T.expr_string(e["x"]) for e in n["entries"]]) for n in T.walk(case["spec"])][:14], "asg": case["asg"], "soll": case["soll"]}, cls="tree")
 
 
+    for i in range(ctx.budget(60, 6_000)):
+        case = gen_case(ctx, rng)
+        seq = {"spec": case["spec"], "asgs": [draw_assignment(rng, POOLS.rc, p_unknown_tree=0.05) for _ in range(rng.randint(2, 4))], "soll": case["soll"], "schedule_seed": case["schedule_seed"]}
+        await check_sequence(ctx, seq)
+
+
 async def replay(ctx, phase, case):
     E.install()
-    await check_tree(ctx, case)
+    if phase == "sequence":
+        await check_sequence(ctx, case)
+    else:
+        await check_tree(ctx, case)
